@@ -109,6 +109,17 @@ pub fn run_any(case: &Case) -> Outcome {
 
 pub const ABORT_CLASS: &str = "process-abort";
 
+/// a runaway in the code under test (or in the harness) must end as a dead process, not as a machine
+/// without memory: 12 GiB of address space is far above anything legitimate. Every process that
+/// executes cases (worker, run-case child, replay, minimiser child) runs under the same limit, so
+/// that a refused allocation replays as a refused allocation.
+pub fn limit_address_space() {
+    unsafe {
+        let lim = libc::rlimit { rlim_cur: 12 << 30, rlim_max: 12 << 30 };
+        libc::setrlimit(libc::RLIMIT_AS, &lim);
+    }
+}
+
 /// stdout of a dead worker: the run it was executing and the size of the impossible allocation the
 /// code under test asked for, if (and only if) the allocator's marker is the reason of the death
 fn aborted_run(stdout: &str) -> Option<(u64, usize)> {
@@ -148,6 +159,7 @@ pub fn abort_probe(case: &Case) -> Option<usize> {
 
 /// child side of `abort_probe`
 pub fn cmd_run_case(pos: &[String]) -> i32 {
+    limit_address_space();
     let Some(path) = pos.first() else { return 2 };
     let Ok(txt) = std::fs::read_to_string(path) else { return 2 };
     let Ok(case) = serde_json::from_str::<Case>(&txt) else { return 2 };
@@ -179,6 +191,7 @@ fn minimise_in_child(prop: &str, f: &Found, budget_s: u64) -> (Case, Failure, bo
 }
 
 pub fn cmd_minimise_case(pos: &[String]) -> i32 {
+    limit_address_space();
     let (Some(prop), Some(inp), Some(outp)) = (pos.first(), pos.get(1), pos.get(2)) else { return 2 };
     let budget = pos.get(3).and_then(|b| b.parse::<u64>().ok()).unwrap_or(30);
     let Ok(txt) = std::fs::read_to_string(inp) else { return 2 };
@@ -231,12 +244,7 @@ pub fn cmd_worker(pos: &[String], flags: &BTreeMap<String, String>) -> i32 {
     let offset = flag_u64(flags, "offset").unwrap_or(0);
     let deadline_s = flag_u64(flags, "deadline").unwrap_or(3600);
     let want_digests = flags.contains_key("digests");
-    // a runaway in the code under test (or in the harness) must end as a dead worker, not as a
-    // machine without memory: 12 GiB of address space per worker is far above anything legitimate
-    unsafe {
-        let lim = libc::rlimit { rlim_cur: 12 << 30, rlim_max: 12 << 30 };
-        libc::setrlimit(libc::RLIMIT_AS, &lim);
-    }
+    limit_address_space();
     let start = Instant::now();
     let mut rep = WorkerReport::default();
     let mut fps: BTreeSet<u64> = BTreeSet::new();
@@ -611,6 +619,7 @@ fn assumptions(build: &str) -> Vec<String> {
 }
 
 pub fn cmd_replay(pos: &[String], _flags: &BTreeMap<String, String>) -> i32 {
+    limit_address_space();
     let Some(path) = pos.first() else { return 2 };
     let txt = match std::fs::read_to_string(path) {
         Ok(t) => t,
